@@ -7,7 +7,8 @@ import vf
 t0 = time.time()
 rc = 0
 seen = {}
-mods = sorted(os.path.basename(p)[:-3] for p in glob.glob(os.path.join(HERE, 'checks', 'C*.py')))
+import json
+mods = sorted(c['property_id'] for c in json.load(open(os.path.join(HERE, 'MANIFEST.json')))['checks'])
 for m in mods:
     try:
         chk = importlib.import_module(m).CHECK()
